@@ -2,7 +2,7 @@
   C04, object-layer memory safety as theorems — third continuation (same statement shape `Safe` as C04_allocsafe{,2,3}.lean:
   `ok = true`, destination well formed, every other variable untouched, value-level view = the list-level result; plus the
   integer identity).  Property theorems only; helper lemmas live in MpirProofs/Lemmas/AllocSafeCfdiv2.lean (mpz/cfdiv_q_2exp.c),
-  AllocSafeAorsmul.lean (mpz/aorsmul_i.c, aorsmul.c), AllocSafeMulC.lean (mpz/mul.c), AllocSafeTdiv.lean (mpz/tdiv_q.c, tdiv_r.c), AllocSafeMpf.lean (mpf/urandomb.c), AllocSafeSqrt.lean (mpz/sqrt.c), AllocSafeTdivQr.lean (mpz/tdiv_qr.c), AllocSafeSqrtrem.lean (mpz/sqrtrem.c), AllocSafeSetD.lean (mpz/set_d.c).
+  AllocSafeAorsmul.lean (mpz/aorsmul_i.c, aorsmul.c), AllocSafeMulC.lean (mpz/mul.c), AllocSafeTdiv.lean (mpz/tdiv_q.c, tdiv_r.c), AllocSafeMpf.lean (mpf/urandomb.c), AllocSafeSqrt.lean (mpz/sqrt.c), AllocSafeTdivQr.lean (mpz/tdiv_qr.c), AllocSafeSqrtrem.lean (mpz/sqrtrem.c), AllocSafeSetD.lean (mpz/set_d.c), AllocSafeMpqInv.lean (mpq/inv.c).
 
   Models: Mpir/Model/AllocSafeMpz3.lean (cfdiv_q_2exp), Mpir/Model/AllocSafeMpz4.lean (everything else here).
   Tied by ops `as3_cdiv_q_2exp`, `as3_fdiv_q_2exp` (part c04_allocsafe3) and `as4_*` (harness/ops_allocsafe4.c; ALLOC SIZ value
@@ -18,6 +18,7 @@ import MpirProofs.Lemmas.AllocSafeSqrt
 import MpirProofs.Lemmas.AllocSafeTdivQr
 import MpirProofs.Lemmas.AllocSafeSqrtrem
 import MpirProofs.Lemmas.AllocSafeSetD
+import MpirProofs.Lemmas.AllocSafeMpqInv
 import MpirProofs.Props.C01_mpz
 namespace Mpir.AllocSafe
 open Mpir
@@ -414,5 +415,54 @@ example : mpz_set_d ex5 0 0x7FF8000000000000 = none := by decide
 example : (mpz_set_d ex5 0 0x4C70000000000000).map (fun s => (s.ok, view (s.h 0))) = some (true, ⟨4, 4, [0, 0, 0, 256]⟩) := by decide
 -- negative: `_mpz_realloc (r, rn - 1)`
 example : (set_d 1 ex5 0 0x43F0000000000000).map (fun s => s.ok) = some false := by decide
+
+/-! ## mpq_inv (mpq/inv.c): an mpq_t is its two mpz_t fields -/
+
+theorem WF_resize {a : Nat} {z : Int} {m : Mpz.Mpz} (hm : Mpz.WF m) (hz : z.natAbs = m.size.natAbs) (ha : m.size.natAbs ≤ a)
+    (h1 : 1 ≤ a) : Mpz.WF ⟨a, z, m.d⟩ := by
+  obtain ⟨_, _, hl, hN⟩ := (Mpz.WF_iff m).mp hm
+  exact (Mpz.WF_iff _).mpr ⟨h1, by show z.natAbs ≤ a; omega, by show m.d.length = z.natAbs; omega, hN⟩
+
+/-- mpq_inv (mpq/inv.c), numerator ≠ 0 (the C raises DIVIDE_BY_ZERO otherwise), dest = (dn, dd), src = (sn, sd) either the same
+    variable or two variables with four distinct fields: in place the two blocks are exchanged and only the size fields are
+    rewritten; otherwise `_mpz_realloc (num (dest), |den_size|)` and `_mpz_realloc (den (dest), num_size)` — issued AFTER the new
+    sizes have been stored in both fields, which `_mpz_realloc` tolerates because the new block is at least that large — cover
+    the two MPN_COPYs.  Both fields are well formed afterwards, no other variable is touched, the new numerator holds the limbs
+    of the old denominator with the sign of the old numerator, the new denominator the limbs of the old numerator. -/
+theorem mpq_inv_alloc_safe (s : St) (dn dd sn sd : Nat) (hs : s.ok = true)
+    (hdn : OWF (s.h dn)) (hdd : OWF (s.h dd)) (hsn : OWF (s.h sn)) (hsd : OWF (s.h sd)) (hn0 : (s.h sn).size ≠ 0)
+    (hfields : dn ≠ dd)
+    (hal : (dn = sn ∧ dd = sd) ∨ (dn ≠ sn ∧ dn ≠ sd ∧ dd ≠ sn ∧ dd ≠ sd)) :
+    ∃ s', mpq_inv s dn dd sn sd = some s' ∧ s'.ok = true ∧ OWF (s'.h dn) ∧ OWF (s'.h dd) ∧
+      (∀ x, x ≠ dn → x ≠ dd → s'.h x = s.h x) ∧
+      (view (s'.h dn)).size = invNum (s.h sn).size (s.h sd).size ∧ (view (s'.h dn)).d = (view (s.h sd)).d ∧
+      (view (s'.h dd)).size = invDen (s.h sn).size ∧ (view (s'.h dd)).d = (view (s.h sn)).d := by
+  have hfn := view_fit hsn
+  have hfd := view_fit hsd
+  rcases hal with ⟨e1, e2⟩ | ⟨h2, h3, h4, h5⟩
+  · subst e1 e2
+    obtain ⟨s', e, S⟩ := mpq_inv_inplace s dn dd hs hdn hdd hn0 hfields
+    refine ⟨s', e, S.ok, ⟨S.bq, ?_⟩, ⟨S.br, ?_⟩, S.frame, by rw [S.vq], by rw [S.vq], by rw [S.vr], by rw [S.vr]⟩
+    · rw [S.vq]; exact WF_resize hdd.2 (natAbs_invNum _ _) hfd hdd.2.1
+    · rw [S.vr]; exact WF_resize hdn.2 (natAbs_invDen _) hfn hdn.2.1
+  · obtain ⟨s', e, S⟩ := mpq_inv_distinct s dn dd sn sd hs hdn hdd hsn hsd hn0 hfields h2 h3 h4 h5
+    obtain ⟨g1, g2⟩ := Mpz.grow_alloc (view (s.h dn)) (s.h sd).size.natAbs
+    obtain ⟨g3, g4⟩ := Mpz.grow_alloc (view (s.h dd)) (s.h sn).size.natAbs
+    have a1 : 1 ≤ (view (s.h dn)).alloc := hdn.2.1
+    have a2 : 1 ≤ (view (s.h dd)).alloc := hdd.2.1
+    refine ⟨s', e, S.ok, ⟨S.bq, ?_⟩, ⟨S.br, ?_⟩, S.frame, by rw [S.vq], by rw [S.vq], by rw [S.vr], by rw [S.vr]⟩
+    · rw [S.vq]; exact WF_resize hsd.2 (natAbs_invNum _ _) g1 (by omega)
+    · rw [S.vr]; exact WF_resize hsn.2 (natAbs_invDen _) g3 (by omega)
+
+/-- heap for the mpq examples: dest = (0, 1) = 5/3 in one-limb blocks, src = (2, 3) = -(B^2-1)/(B^3-1) in exact blocks -/
+def exq : St := ⟨fun i => if i = 0 then ⟨1, 0, ⟨1, [5]⟩⟩ else if i = 1 then ⟨1, 0, ⟨1, [3]⟩⟩
+                  else if i = 2 then ⟨-2, 0, ⟨2, [B - 1, B - 1]⟩⟩ else ⟨3, 0, ⟨3, [B - 1, B - 1, B - 1]⟩⟩, true⟩
+
+-- into another variable: both fields grow (1 → 3 and 1 → 2 limbs), the sign moves to the numerator
+example : (mpq_inv exq 0 1 2 3).map (fun s => (s.ok, view (s.h 0), view (s.h 1))) =
+    some (true, ⟨3, -3, [B - 1, B - 1, B - 1]⟩, ⟨2, 2, [B - 1, B - 1]⟩) := by decide
+-- in place: the blocks are exchanged (allocations 2 and 3 swap)
+example : (mpq_inv exq 2 3 2 3).map (fun s => (s.ok, view (s.h 2), view (s.h 3))) =
+    some (true, ⟨3, -3, [B - 1, B - 1, B - 1]⟩, ⟨2, 2, [B - 1, B - 1]⟩) := by decide
 
 end Mpir.AllocSafe
